@@ -509,7 +509,9 @@ def _kind(e, fi, model, _depth=0):
                 kinds.add('N')
             elif isinstance(d, tuple) and d[0] == 'unpack':
                 kinds.add('C')
-            elif isinstance(d, ast.IfExp):
+            elif isinstance(d, ast.IfExp) or (
+                    isinstance(d, ast.Subscript) and
+                    isinstance(d.value, ast.Call)):
                 kinds.add(_kind(d, fi, model, _depth + 1))
             else:
                 kinds.add('X')
@@ -518,6 +520,24 @@ def _kind(e, fi, model, _depth=0):
         if kinds <= {'B', 'N'}:
             return 'B'
         return 'X'
+    if isinstance(e, ast.Subscript) and isinstance(e.value, ast.Call) and \
+            isinstance(e.slice, ast.Constant) and isinstance(
+                e.slice.value, int) and _depth < 3:
+        # helper(...)[1]: the kind of that element of what the helper
+        # returns (a helper that compiles one condition)
+        ks = set()
+        for t in model.resolve_callee(e.value.func, fi):
+            if t[0] != 'func':
+                return 'X'
+            for x in own_nodes(t[1].node):
+                if isinstance(x, ast.Return):
+                    if isinstance(x.value, ast.Tuple) and \
+                            e.slice.value < len(x.value.elts):
+                        ks.add(_kind(x.value.elts[e.slice.value], t[1],
+                                     model, _depth + 1))
+                    else:
+                        ks.add('X')
+        return ks.pop() if len(ks) == 1 else 'X'
     return 'X'
 
 
